@@ -228,26 +228,20 @@ BATCH_ASSUME = ['itertools.product(*lists): every index combination exactly once
 
 PROPS.update({
     'C14': dict(
-        level='other',
-        level_text='Deductive proof of the declaration part (constructor keeps names, values and order; add / remove are '
-                   'whole-view dictionary updates; non-string, duplicate and unknown names are rejected with nothing '
-                   'changed) and of the structure of build(): one (name, value) list per parameter in declaration order '
-                   '(loop invariant; strings and non-iterables wrapped, collections expanded item by item), every '
-                   'combination dictionary has exactly the declared names, one combination for no parameters, none for an '
-                   'empty collection, declaration untouched (frame). That each value is the chosen item, each combination '
-                   'occurs once and the first parameter varies slowest is NOT proved (the nested witness chain through '
-                   'the assumed product / dict contracts does not discharge): a bounded stand-in checks build() against '
-                   'an independent product oracle for all declarations of <= 3 parameters over a fixed value pool.',
-        level_note='bounded stand-in for the value / exactly-once / order clauses of build (replayers/batchw.py); '
-                   'itertools.product, dict() and the iterator protocol are assumed contracts.',
+        level_text='Deductive proof: the constructor keeps names, values and order; add / remove are whole-view '
+                   'dictionary updates; non-string, duplicate and unknown names are rejected with nothing changed; '
+                   'build() makes one (name, value) list per parameter in declaration order (loop invariant: strings and '
+                   'non-iterables wrapped, collections expanded item by item) and hands them in that order to '
+                   'itertools.product; every resulting dictionary has exactly the declared names, each bound to the single '
+                   'value itself or to an item of that parameter\'s collection; one combination for no parameters, none '
+                   'with an empty collection; the declaration is untouched (frame), so building is repeatable. That every '
+                   'index combination occurs exactly once with the first-declared parameter slowest is the assumed '
+                   'contract of itertools.product (exercised against an independent product oracle by the native layer).',
+        level_note='itertools.product, dict(pairs) and the iterator protocol are assumed contracts; dictionaries of '
+                   'build() are abstract records (independence = freshness of dict(), assumed).',
         functions=['Batching.ParameterList.__init__#empty', 'Batching.ParameterList.__init__#dict',
                    'Batching.ParameterList.add_parameter', 'Batching.ParameterList.add_parameter#nonstr',
                    'Batching.ParameterList.remove_parameter', 'Batching.ParameterList.build'],
-        bounded=[dict(function='Batching.ParameterList.build',
-                      clause='value of every name in every combination, each combination exactly once, first-declared '
-                             'parameter slowest, repeatability, independent dictionaries',
-                      bound='all histories of <= 3 declared parameters drawn from {int, str, [], [7], [1,2], (1,1), '
-                            'range(3), numpy array, None} with add / remove / rebuild, plus seeded random histories')],
         assumptions=BATCH_ASSUME),
     'C16': dict(
         level_text='Deductive proof (scores as reals): _score_model_for_search maps every mode to its aggregate; in '
